@@ -56,8 +56,13 @@ def suite_convert(ctx, case):
     def num(v, how):
         # characteristic values as they come out of an analysis: numpy scalars (array.mean(), array[i]) are numbers too
         return np.float64(v) if how == 'np' else np.array([v, v]).mean() if how == 'mean' else v
-    ucs = [UnitConverter(num(c['dc'], c.get('numtype')), c['dc_unit'], 14.02, 'gram/mole', num(c['ec'], c.get('numtype')), c['ec_unit']) if c.get('positional')      # the documented positional order
-           else UnitConverter(dc=num(c['dc'], c.get('numtype')), dc_unit=c['dc_unit'], ec=num(c['ec'], c.get('numtype')), ec_unit=c['ec_unit']) for c in convs]
+    def mk_uc(c):
+        if c.get('positional'): return UnitConverter(num(c['dc'], c.get('numtype')), c['dc_unit'], 14.02, 'gram/mole', num(c['ec'], c.get('numtype')), c['ec_unit'])      # the documented positional order
+        kw = dict(dc=num(c['dc'], c.get('numtype')), dc_unit=c['dc_unit'], ec=num(c['ec'], c.get('numtype')), ec_unit=c['ec_unit'])
+        # arguments that equal the documented defaults (dc=1.0, 'nanometer', ec=2.48, 'kilojoule/mole') may be left out - one by one
+        for key in c.get('omit', []): kw.pop(key)
+        return UnitConverter(**kw)
+    ucs = [mk_uc(c) for c in convs]
     drv = ctx.drv
     if case.get('rejected_first'):
         # every converter first sees calls that are rejected (a pint quantity of the wrong dimension, a string) and caught by the caller;
@@ -119,7 +124,8 @@ def suite_convert(ctx, case):
         # 2-D tables of values in C order, Fortran order and as a transposed view: position by position the value of the flat conversion
         if xs.size >= 4 and not isinstance(d, list):
             n2 = (xs.size // 2) * 2; tab = xs[:n2].reshape(2, -1); want2 = m[:n2].reshape(2, -1)
-            for nm_, arr_, w_ in (('C-ordered 2-D array', tab.copy(), want2), ('Fortran-ordered 2-D array', np.asfortranarray(tab), want2), ('transposed 2-D view', tab.T, want2.T), ('reversed view', xs[::-1], m[::-1])):
+            for nm_, arr_, w_ in (('column (n, 1)', xs.reshape(-1, 1).copy(), m.reshape(-1, 1)), ('row (1, n)', xs.reshape(1, -1).copy(), m.reshape(1, -1)), ('one-element array', xs[:1].copy(), m[:1]),
+                                  ('C-ordered 2-D array', tab.copy(), want2), ('Fortran-ordered 2-D array', np.asfortranarray(tab), want2), ('transposed 2-D view', tab.T, want2.T), ('reversed view', xs[::-1], m[::-1])):
                 try:
                     g_ = np.asarray(call(uc, meth, arr_, d).magnitude, dtype=float)
                     okl = g_.shape == w_.shape and bool(np.all(np.abs(g_ - w_) <= 1e-13 * np.abs(w_) + 1e-12))
@@ -145,6 +151,16 @@ SUITES = {'convert': suite_convert}
 
 def gen_conv(rng):
     digits = rng.choice([3, 6, 10, 12])
+    if rng.random() < 0.25:
+        # partially specified: some arguments are the documented defaults and are simply not passed
+        c = {'dc': 1.0, 'dc_unit': 'nanometer', 'ec': 2.48, 'ec_unit': 'kilojoule/mole', 'numtype': None, 'positional': False}
+        omit = rng.choice([['dc_unit'], ['dc'], ['ec_unit'], ['ec'], ['dc_unit', 'ec_unit'], ['dc', 'ec'], ['dc', 'dc_unit', 'ec'], ['dc_unit', 'ec']])
+        if 'dc' not in omit: c['dc'] = float('%.6g' % (10 ** rng.uniform(-1, 1.5)))
+        if 'dc_unit' not in omit: c['dc_unit'] = rng.choice(['angstrom', 'picometer', 'nanometer'])
+        if 'ec' not in omit: c['ec'] = float('%.6g' % (10 ** rng.uniform(-1, 1)))
+        if 'ec_unit' not in omit: c['ec_unit'] = rng.choice(['kilocalorie/mole', 'joule/mole', 'kJ/mol'])
+        c['omit'] = omit
+        return c
     return {'dc': float(('%%.%dg' % digits) % (10 ** rng.uniform(-1, 1.5))), 'dc_unit': rng.choice(list(LEN)[:3] if rng.random() < 0.9 else ['meter']),
             'ec': float(('%%.%dg' % digits) % (10 ** rng.uniform(-2, 2) * rng.choice([1.0, 2.4943387854]))), 'ec_unit': rng.choice(list(EN)),
             'numtype': rng.choice([None, None, 'np', 'mean']), 'positional': rng.random() < 0.3}
